@@ -13,6 +13,7 @@ func init() {
 		"(R2) revertible vs unrevertible: EventLogger.Add records noRevert=false, AddUnrevertible noRevert=true (a discriminator only ever assigned one constant makes RestoreSnapshot's branch vacuous); restored events are re-indexed consecutively; both block executers re-index (UpdateIndex) after their last append; "+
 		"(R3) delete sentinel agreement: the value stateSMTBatch.Del hands to the trie has static length 0 — what the trie's update treats as removal — while Set hands a hash; "+
 		"(R4) Commit/revert: state diff, tree nodes and the tree-state marker go into one batch applied once; both write the same marker key; revert reads the diff Commit wrote; "+
+		"(R6) the store snapshot restored after a failed command is a faithful deep copy that preserves the not-in-database sentinel; "+
 		"(R5) typestate of the recovery path: every dereference of ABIHandler.executionContext reachable from Init is dominated by a non-nil fact (Init runs before any context exists).",
 		runC16)
 }
@@ -359,6 +360,23 @@ func runC16(c *Ctx) {
 				}
 				c.Require("C16.R4 root-checked-before-write", FuncKey(fn), p.InstrPos(s.Call), "a mismatch between the computed and the expected root aborts before anything is written", ok, "")
 			}
+		}
+	}
+
+	// ---- R6 the store snapshot restored after a failed command is a faithful copy:
+	// the not-in-database sentinel survives Snapshot()/RestoreSnapshot()
+	if commitFn := c.Anchor("pkg/db/diffdb.(*cacheDB).commit"); commitFn != nil {
+		checkSentinelProducers(c, "C16.R6 snapshot-copy-faithful", commitFn)
+		snap := c.Anchor("pkg/db/diffdb.(*Database).Snapshot")
+		rest := c.Anchor("pkg/db/diffdb.(*Database).RestoreSnapshot")
+		if snap != nil && rest != nil {
+			okCopy := len(CallsIn(snap, "(*db/diffdb.cacheDB).copy")) == 1
+			c.Require("C16.R6 snapshot-copy-faithful", FuncKey(snap), p.Pos(snap.Pos()), "a snapshot is a deep copy of the overlay (later writes must not reach it)", okCopy, "")
+			okRest := false
+			for _, st := range storesToField(rest, "db/diffdb.Database", "cache") {
+				okRest = strings.Contains(T(st.Val).String(), ".snapshots[")
+			}
+			c.Require("C16.R6 snapshot-copy-faithful", FuncKey(rest), p.Pos(rest.Pos()), "restore replaces the overlay with the stored snapshot", okRest, "")
 		}
 	}
 
